@@ -260,6 +260,10 @@ def build_jobs(tier, rep):
         + gen.twins(gen.sample(l1, 40000 if q else 400000, C.SEED + 6, keep_short=3000), C.SEED + 1, per_doc=2) \
         + gen.twins(gen.sample(l2, 15000 if q else 150000, C.SEED + 7), C.SEED + 2, per_doc=1)
     docs += tw
+    # product line shapes (container prefix x leaf): every one- and two-line document
+    l3 = gen.l3_docs()
+    docs += l3 if not q else gen.sample(l3, 330000, C.SEED + 8, keep_short=1000)
+    docs += [d + "\n" for d in gen.sample(l3, 60000 if q else 300000, C.SEED + 9)]
     # nesting families
     nest, sizes = gen.alphabet("Nest"), gen.alphabet("NestSizes")
     fam = [u * n + m + c * n for (u, m, c) in nest for n in sizes]
@@ -288,7 +292,7 @@ def build_jobs(tier, rep):
     for b in lb:
         jobs.append((base[0], "cli", b, None, True))
     rep.cov["bounds"] = {"L0": len(l0), "L1": len(l1), "L2": len(l2), "LB": len(lb), "long_docs": len(longdocs),
-                         "fixtures": len(fx), "unicode_twin_docs": len(tw), "nesting_family_docs": len(fam), "configs_enumerated": len(cfgs),
+                         "fixtures": len(fx), "unicode_twin_docs": len(tw), "L3_product_shapes_docs": len(l3), "nesting_family_docs": len(fam), "configs_enumerated": len(cfgs),
                          "calls": len(jobs)}
     return jobs, fam
 
